@@ -55,15 +55,22 @@ Fixpoint bytes_ltb (a b : bytes) : bool :=
 
 Definition jmap := list (bytes * json).
 
-(* m[k] = v *)
-Fixpoint mset (k : bytes) (v : json) (m : jmap) : jmap :=
+(* delete(m, k) *)
+Fixpoint mremove (k : bytes) (m : jmap) : jmap :=
+  match m with
+  | [] => []
+  | (k', v') :: t => if bytes_eqb k k' then mremove k t else (k', v') :: mremove k t
+  end.
+
+(* a new key goes in front of the first greater one *)
+Fixpoint minsert (k : bytes) (v : json) (m : jmap) : jmap :=
   match m with
   | [] => [(k, v)]
-  | (k', v') :: t =>
-      if bytes_eqb k k' then (k, v) :: t
-      else if bytes_ltb k k' then (k, v) :: m
-      else (k', v') :: mset k v t
+  | (k', v') :: t => if bytes_ltb k k' then (k, v) :: m else (k', v') :: minsert k v t
   end.
+
+(* m[k] = v *)
+Definition mset (k : bytes) (v : json) (m : jmap) : jmap := minsert k v (mremove k m).
 
 (* m[k] *)
 Fixpoint mget (k : bytes) (m : jmap) : option json :=
